@@ -509,8 +509,12 @@ class Normalize:
             return lit(Fraction(repr(node.value)) if isinstance(node.value, float) else node.value)
         if _chain(node) == ['config', 'EPSILON']:
             return '(config_epsilon O)'
-        if isinstance(node, ast.Subscript) and ast.unparse(node.slice) in ('(slice(None, None, None), None)',
-                                                                            ':, None', ':, np.newaxis'):
+        if isinstance(node, ast.Subscript) and isinstance(node.slice, ast.Tuple) and \
+                len(node.slice.elts) == 2 and isinstance(node.slice.elts[0], ast.Slice) and \
+                node.slice.elts[0].lower is None and node.slice.elts[0].upper is None and \
+                node.slice.elts[0].step is None and \
+                ((isinstance(node.slice.elts[1], ast.Constant) and node.slice.elts[1].value is None) or
+                 _chain(node.slice.elts[1]) == ['np', 'newaxis']):
             return self.scalar(node.value, env)          # [:, None]: shape only
         if isinstance(node, ast.Call):
             ch = _chain(node.func)
